@@ -154,6 +154,27 @@ def run_fuzz(pid, tier, seed, replay=None):
                     break
                 else:
                     log("artifact %s did not reproduce 3x - dropped" % a)
+            # a hang counts only if it reproduces three times, single-threaded, with a larger bound
+            hangs = sorted(glob.glob(os.path.join(adir, "timeout-*")), key=os.path.getsize)
+            for a in hangs[:2]:
+                if violations:
+                    break
+                res = []
+                for _ in range(3):
+                    try:
+                        pr = subprocess.run(prlimit_cmd([exe, "-timeout=45", "-rss_limit_mb=4096", a]), env=env,
+                                            stdout=subprocess.PIPE, stderr=subprocess.STDOUT, timeout=120)
+                        res.append(pr.returncode != 0 and b"timeout" in pr.stdout.lower())
+                    except subprocess.TimeoutExpired:
+                        res.append(True)
+                    if not res[-1]:
+                        break
+                if all(res) and len(res) == 3:
+                    os.makedirs(os.path.join(FAIL, pid), exist_ok=True)
+                    sha = hashlib.sha256(open(a, "rb").read()).hexdigest()[:12]
+                    dst = os.path.join(FAIL, pid, "%s-%s.bin" % (t["name"], sha))
+                    shutil.copyfile(a, dst)
+                    violations.append((dst, "scan of this input does not terminate within 45 s (3 of 3 single-threaded runs)"))
             if p.returncode not in (0,) and not arts:
                 log("campaign %s ended with status %s and no artifact:\n%s" % (t["name"], p.returncode, logtxt[-1500:]))
 
